@@ -34,6 +34,7 @@ import (
 
 	"github.com/compose-spec/compose-go/v2/loader"
 	"github.com/compose-spec/compose-go/v2/template"
+	"github.com/compose-spec/compose-go/v2/types"
 
 	"verifharness/core"
 )
@@ -49,6 +50,10 @@ type siteArgs struct {
 	// template is interpolated but do not enclose it.  They are not handed to the Lean side: the model (and the
 	// grammar) say that the value does not depend on them (no lookup state is carried from one document to the next).
 	Other [][][2]string `json:"other,omitempty"`
+	// round 7 (c07_hist.go): the config files are handed over as already parsed dicts (types.ConfigFile.Config), and
+	// the SAME dicts are loaded under each environment of Hist before the observed load
+	Dict bool                `json:"dict,omitempty"`
+	Hist []map[string]string `json:"hist,omitempty"`
 }
 
 type rawLine struct {
@@ -268,7 +273,17 @@ func init() {
 					o.Interpolate.Substitute = c07CustomSubstitute
 				}
 			}}
-			p, err := loader.LoadWithContext(context.Background(), req.Details(root), opts...)
+			details := req.Details(root)
+			w := &histWatch{}
+			if a.Dict {
+				if bad := dictHistory(&details, w, a.Hist, opts); bad != nil {
+					return bad
+				}
+			}
+			p, err := loader.LoadWithContext(context.Background(), details, opts...)
+			if bad := w.check(fmt.Sprintf("after loader.LoadWithContext with environment %s (preceded by %d loads of the same dicts)", envText(a.Env), len(a.Hist))); bad != "" {
+				return histBad("input-mutated", bad)
+			}
 			if err != nil {
 				return map[string]any{"rendered": t, "out": map[string]any{"err": loadErrClass(err.Error())}}
 			}
@@ -333,6 +348,43 @@ func init() {
 	})
 }
 
+// dictHistory replaces the config files of details by pre-parsed dicts (loader.ParseYAML of their content), registers
+// them with w and loads them once per environment of hist, checking the dicts after every load (c07_hist.go).
+func dictHistory(details *types.ConfigDetails, w *histWatch, hist []map[string]string, opts []func(*loader.Options)) map[string]any {
+	for i := range details.ConfigFiles {
+		b, err := os.ReadFile(details.ConfigFiles[i].Filename)
+		if err != nil {
+			return map[string]any{"skip": "dict mode: " + err.Error()}
+		}
+		if strings.Contains(string(b), "---\n") {
+			return map[string]any{"skip": "dict mode needs single-document config files"}
+		}
+		dict, err := loader.ParseYAML(b)
+		if err != nil {
+			return map[string]any{"skip": "dict mode: ParseYAML: " + err.Error()}
+		}
+		details.ConfigFiles[i].Config = dict
+		w.add(fmt.Sprintf("ConfigFiles[%d].Config (parsed from %q)", i, string(b)), dict)
+	}
+	for i, h := range hist {
+		d := *details
+		d.Environment = map[string]string{}
+		for k, v := range h {
+			d.Environment[k] = v
+		}
+		m, _ := loader.LoadModelWithContext(context.Background(), d, opts...)
+		when := fmt.Sprintf("after load %d of the history (loader.LoadModelWithContext with environment %s)", i+1, envText(h))
+		if bad := w.check(when); bad != "" {
+			return histBad("input-mutated", bad)
+		}
+		scribble(m)
+		if bad := w.check(when + " and an edit of every map/sequence of the returned model"); bad != "" {
+			return histBad("result-aliases-input", bad)
+		}
+	}
+	return nil
+}
+
 func errOrOk(raw json.RawMessage) (cls string, val any) {
 	var m map[string]any
 	json.Unmarshal(raw, &m)
@@ -355,6 +407,8 @@ func siteJudge(args, real, drv json.RawMessage) *core.Verdict {
 		Skip     string          `json:"skip"`
 		Rendered string          `json:"rendered"`
 		Out      json.RawMessage `json:"out"`
+		HistBad  string          `json:"hist_bad"`
+		HistWhat string          `json:"hist_what"`
 	}
 	var d struct {
 		WF       bool            `json:"wf"`
@@ -368,6 +422,9 @@ func siteJudge(args, real, drv json.RawMessage) *core.Verdict {
 	}
 	if r.Skip != "" {
 		return core.Skip(r.Skip)
+	}
+	if r.HistBad != "" {
+		return core.Fail("site-history:"+r.HistBad+":"+a.Site, "site "+a.Site+": "+r.HistWhat)
 	}
 	if r.Rendered != d.Rendered {
 		return core.Disagree("Go render ≠ Lean render")
@@ -490,6 +547,10 @@ func siteStateKey(a siteArgs) string {
 // interpolated (round 6; seed C07-8: lookup state carried from the include into later documents of the parent)
 var c07AfterSites = []string{"after-include-override", "after-include-dotenv-override", "after-include-multidoc", "after-include-extends", "after-include-sibling", "after-include-nested-files", "after-include-nested-multidoc"}
 
+// sites run in dict mode with histories (round 7); `skip` is left out: with SkipInterpolation the loader works on the
+// caller's dict itself, which is not this property's business
+var c07DictSites = []string{"main", "seq", "extends", "include", "include-extends", "name", "custom"}
+
 var c07Sites = []string{"main", "seq", "extends", "include", "include-dotenv", "include-nested", "include-extends", "name", "skip", "custom", "custom-include"}
 
 // runC07Sites: exhaustive variable states × sites on a fixed family of templates, then random ASTs.
@@ -549,6 +610,33 @@ func runC07Sites(ctx *core.Ctx, rnd func(depth int, inArg bool) []seg) {
 						}
 					}
 					rec(0, nil)
+				}
+			}
+		}
+	}
+	// dict mode (round 7): the config files as pre-parsed dicts, loaded under other environments first; the observed
+	// load must read the templates of the document, not the values of the loads before it
+	for _, site := range c07DictSites {
+		nl := layersOf(site)
+		for _, ast := range asts {
+			for _, ea := range envStates {
+				for _, eb := range []*string{nil, str("b")} {
+					a := siteArgs{Ast: ast, Env: map[string]string{}, Site: site, Dict: true}
+					if ea != nil {
+						a.Env["A"] = *ea
+					}
+					if eb != nil {
+						a.Env["B"] = *eb
+					}
+					for l := 0; l < nl; l++ {
+						a.Layers = append(a.Layers, [][2]string{})
+					}
+					for hi, hist := range [][]map[string]string{{a.Env}, {{"A": "h1", "B": "h2"}}, {{}, {"A": "", "B": "$A"}}} {
+						b := a
+						b.Hist = hist
+						ctx.Count(fmt.Sprintf("site-dict-history-%d:%s", hi, site))
+						ctx.Add("substSite", b)
+					}
 				}
 			}
 		}
@@ -731,6 +819,19 @@ func runC07Sites(ctx *core.Ctx, rnd func(depth int, inArg bool) []seg) {
 				}
 			}
 			a.Layers = append(a.Layers, layer)
+		}
+		if ctx.Rng.Intn(4) == 0 && a.Site != "skip" {
+			a.Dict = true
+			for n := ctx.Rng.Intn(3); n > 0; n-- {
+				h := map[string]string{}
+				for _, nm := range rnames {
+					if ctx.Rng.Intn(2) == 0 {
+						h[nm] = []string{"", "h", "hist-" + nm, "$$", "${A}"}[ctx.Rng.Intn(5)]
+					}
+				}
+				a.Hist = append(a.Hist, h)
+			}
+			ctx.Count(fmt.Sprintf("site-random-dict-history-len-%d", len(a.Hist)))
 		}
 		ctx.Count("site-random:" + a.Site)
 		ctx.Add("substSite", a)
